@@ -1189,8 +1189,8 @@ def fault_oracle(ctx: Ctx, w: World, spec: Dict[str, Any], trace) -> None:
         key = (t["op"], t["obj"])
         if key in seen and t["nreports"] != prev:
             fail("reported-twice:" + opn, "a repeated %s call on the same object filed %d more report(s)" % (opn, t["nreports"] - prev))
-        if t["op"] == "x":  # extract_fields re-parses and replaces parsed_docstring: later calls start afresh
-            seen = {k: v for k, v in seen.items() if k[1] != t["obj"]}
+        if t["op"] == "x":  # extract_fields re-parses, and gives the attributes its fields name a new parsed_docstring:
+            seen = {}       # later calls on any of them start afresh
         seen[key] = 1
         prev = t["nreports"]
     for (i, before, after, between) in summary_stability(trace):
